@@ -57,7 +57,8 @@ HostType(e) ==
     [] e.hostkind = "[]*Variant" -> "Array" [] e.hostkind = "*Variant" -> e.inner
     [] e.hostkind = "nil" -> "Null" [] OTHER -> "Object"
 HostFails(e) ==
-     F(e.type = HostType(e), "a host value of kind " \o e.hostkind \o " is not given the matching variant type")
+     \* (the narrow integer kinds int8, int16, uint8, uint16: an integer variant matches them as well as the opaque Object does)
+     F(e.type = HostType(e) \/ (e.hostkind = "smallint" /\ e.type \in {"Integer", "Long", "Object"}), "a host value of kind " \o e.hostkind \o " is not given the matching variant type")
   \o F(e.back = e.value, "the typed accessor does not return the host value unchanged")
 
 Init == l = 1 /\ HInit(Slots, Lists)
